@@ -54,6 +54,10 @@ func (c *webRTCConn) Close() (err error) {
 		vhook("conn.pcclose", c)
 		err = c.pc.Close()
 	})
+	// Nobody reads from the pipe any more: release an OnMessage callback that
+	// is (or will be) waiting in its pipe write, otherwise the data channel's
+	// read loop never gets to report the close.
+	c.pr.Close()
 	return
 }
 
